@@ -14,24 +14,48 @@ theorem upd_other {β : Type} (f : Nat → β) (k x : Nat) (v : β) (h : x ≠ k
 
 /-! ### Frozen -/
 
-def Frozen (s s' : Sess) : Prop :=
-  ∀ c, (s.c c).present = true →
-    (s'.c c).present = true ∧ ∀ a, (s.c c).rbits a = true → (s'.c c).rbits a = true ∧ (s'.c c).vals a = (s.c c).vals a
+/-- the attribute's value is pinned for the session: it is not volatile and either its read bit is set (the session read
+    it, used it in a query, or wrote it and flushed) or it carries an unflushed own assignment -/
+def prot (cfg : Cfg) (o : CObj) (a : Attr) : Bool := !cfg.volatile a && (o.rbits a || o.wmask a)
 
-theorem Frozen.refl (s : Sess) : Frozen s s := fun _ h => ⟨h, fun _ hr => ⟨hr, rfl⟩⟩
+def KeepsAt (cfg : Cfg) (c : Nat) (a : Attr) (s s' : Sess) : Prop :=
+  (s.c c).present = true →
+    (s'.c c).present = true ∧ (prot cfg (s.c c) a = true → prot cfg (s'.c c) a = true ∧ (s'.c c).vals a = (s.c c).vals a)
 
-theorem Frozen.trans {s1 s2 s3 : Sess} (h12 : Frozen s1 s2) (h23 : Frozen s2 s3) : Frozen s1 s3 := by
-  intro c hp
-  obtain ⟨hp2, h2⟩ := h12 c hp
-  obtain ⟨hp3, h3⟩ := h23 c hp2
-  refine ⟨hp3, fun a hr => ?_⟩
-  obtain ⟨hr2, hv2⟩ := h2 a hr
-  obtain ⟨hr3, hv3⟩ := h3 a hr2
+def Frozen (cfg : Cfg) (s s' : Sess) : Prop := ∀ c a, KeepsAt cfg c a s s'
+
+theorem KeepsAt.refl (cfg : Cfg) (c : Nat) (a : Attr) (s : Sess) : KeepsAt cfg c a s s := fun h => ⟨h, fun hr => ⟨hr, rfl⟩⟩
+
+theorem KeepsAt.trans {cfg : Cfg} {c : Nat} {a : Attr} {s1 s2 s3 : Sess} (h12 : KeepsAt cfg c a s1 s2)
+    (h23 : KeepsAt cfg c a s2 s3) : KeepsAt cfg c a s1 s3 := by
+  intro hp
+  obtain ⟨hp2, h2⟩ := h12 hp
+  obtain ⟨hp3, h3⟩ := h23 hp2
+  refine ⟨hp3, fun hr => ?_⟩
+  obtain ⟨hr2, hv2⟩ := h2 hr
+  obtain ⟨hr3, hv3⟩ := h3 hr2
   exact ⟨hr3, hv3.trans hv2⟩
 
-/-- changing only `kids` -/
-theorem Frozen.of_c_eq {s s' : Sess} (h : s'.c = s.c) : Frozen s s' := by
-  intro c hp; rw [h]; exact ⟨hp, fun _ hr => ⟨hr, by trivial⟩⟩
+theorem Frozen.refl {cfg : Cfg} (s : Sess) : Frozen cfg s s := fun c a => KeepsAt.refl cfg c a s
+
+theorem Frozen.trans {cfg : Cfg} {s1 s2 s3 : Sess} (h12 : Frozen cfg s1 s2) (h23 : Frozen cfg s2 s3) : Frozen cfg s1 s3 :=
+  fun c a => (h12 c a).trans (h23 c a)
+
+/-- changing only `kids` / `toSave` -/
+theorem Frozen.of_c_eq {cfg : Cfg} {s s' : Sess} (h : s'.c = s.c) : Frozen cfg s s' := by
+  intro c a hp; rw [h]; exact ⟨hp, fun hr => ⟨hr, by trivial⟩⟩
+
+/-- replacing one instance by one with the same `_vals_`, the same identity-map status and at least the same protection -/
+theorem Frozen.of_obj {cfg : Cfg} (s : Sess) (cid : Nat) (o' : CObj) (hp : o'.present = (s.c cid).present)
+    (hv : o'.vals = (s.c cid).vals) (hpr : ∀ a, prot cfg (s.c cid) a = true → prot cfg o' a = true) :
+    Frozen cfg s (setC s cid o') := by
+  intro c a hpc
+  by_cases hc : c = cid
+  · subst hc
+    simp only [setC, upd_same]
+    exact ⟨by rw [hp]; exact hpc, fun hr => ⟨hpr a hr, by rw [hv]⟩⟩
+  · simp only [setC, upd_other _ _ _ _ hc]
+    exact ⟨hpc, fun hr => ⟨hr, by trivial⟩⟩
 
 theorem dbReverseAdd_c (s : Sess) (p cid : Nat) : (dbReverseAdd s p cid).1.c = s.c := by
   unfold dbReverseAdd
@@ -70,34 +94,27 @@ theorem dbUpdateReverse_c (g : Bool) (s : Sess) (cid : Nat) (old : Option Val) (
     · rfl
   · rfl
 
-/-- the second loop of `_db_set_` never touches `_vals_`, `_rbits_` or the identity map; when it completes, none of
-    the attributes it went through had its read bit set -/
+/-- everything of an instance except `_dbvals_` -/
+def SameButDbvals (o o' : CObj) : Prop :=
+  o'.vals = o.vals ∧ o'.rbits = o.rbits ∧ o'.present = o.present ∧ o'.wbits = o.wbits ∧ o'.wmask = o.wmask
+
+/-- the second loop of `_db_set_` touches only `_dbvals_` (and collections); when it completes, none of the attributes it
+    went through had its read bit set -/
 theorem loop2_spec (g : Bool) (cid : Nat) : ∀ (av : List (Attr × Val)) (s : Sess),
-    (∀ x, ((loop2 g cid s av).1.c x).vals = (s.c x).vals ∧ ((loop2 g cid s av).1.c x).rbits = (s.c x).rbits ∧
-          ((loop2 g cid s av).1.c x).present = (s.c x).present) ∧
+    (∀ x, SameButDbvals (s.c x) ((loop2 g cid s av).1.c x)) ∧
     ((loop2 g cid s av).2 = none → ∀ e, e ∈ av → (s.c cid).rbits e.1 = false)
-  | [], s => by simp [loop2]
+  | [], s => by simp [loop2, SameButDbvals]
   | (a, nv) :: rest, s => by
     unfold loop2
     simp only
     by_cases hr : (s.c cid).rbits a = true
-    · simp [hr]
+    · simp [hr, SameButDbvals]
     · simp only [hr, Bool.false_eq_true, if_false]
       have hrf : (s.c cid).rbits a = false := by simpa using hr
-      -- the reverse update keeps `c`
       have key : ∀ r : Sess × Option Err, r.1.c = s.c →
-          (∀ x, ((match r with
+          (∀ x, SameButDbvals (s.c x) ((match r with
                   | (s1, some e) => (s1, some e)
-                  | (s1, none) => loop2 g cid (setC s1 cid { s1.c cid with dbvals := upd (s1.c cid).dbvals a (some nv) }) rest).1.c x).vals
-                    = (s.c x).vals ∧
-                ((match r with
-                  | (s1, some e) => (s1, some e)
-                  | (s1, none) => loop2 g cid (setC s1 cid { s1.c cid with dbvals := upd (s1.c cid).dbvals a (some nv) }) rest).1.c x).rbits
-                    = (s.c x).rbits ∧
-                ((match r with
-                  | (s1, some e) => (s1, some e)
-                  | (s1, none) => loop2 g cid (setC s1 cid { s1.c cid with dbvals := upd (s1.c cid).dbvals a (some nv) }) rest).1.c x).present
-                    = (s.c x).present) ∧
+                  | (s1, none) => loop2 g cid (setC s1 cid { s1.c cid with dbvals := upd (s1.c cid).dbvals a (some nv) }) rest).1.c x)) ∧
           ((match r with
                   | (s1, some e) => (s1, some e)
                   | (s1, none) => loop2 g cid (setC s1 cid { s1.c cid with dbvals := upd (s1.c cid).dbvals a (some nv) }) rest).2 = none →
@@ -107,22 +124,20 @@ theorem loop2_spec (g : Bool) (cid : Nat) : ∀ (av : List (Attr × Val)) (s : S
         cases oe with
         | some e =>
           simp only at hc
-          refine ⟨fun x => by simp [hc], fun h => by simp at h⟩
+          refine ⟨fun x => by simp [hc, SameButDbvals], fun h => by simp at h⟩
         | none =>
           simp only at hc
           simp only
           obtain ⟨ih1, ih2⟩ := loop2_spec g cid rest (setC s1 cid { s1.c cid with dbvals := upd (s1.c cid).dbvals a (some nv) })
-          have hset : ∀ x, ((setC s1 cid { s1.c cid with dbvals := upd (s1.c cid).dbvals a (some nv) }).c x).vals = (s.c x).vals ∧
-              ((setC s1 cid { s1.c cid with dbvals := upd (s1.c cid).dbvals a (some nv) }).c x).rbits = (s.c x).rbits ∧
-              ((setC s1 cid { s1.c cid with dbvals := upd (s1.c cid).dbvals a (some nv) }).c x).present = (s.c x).present := by
+          have hset : ∀ x, SameButDbvals (s.c x) ((setC s1 cid { s1.c cid with dbvals := upd (s1.c cid).dbvals a (some nv) }).c x) := by
             intro x
             by_cases hx : x = cid
-            · subst hx; simp [setC, hc]
-            · simp [setC, upd_other _ _ _ _ hx, hc]
+            · subst hx; simp [setC, hc, SameButDbvals]
+            · simp [setC, upd_other _ _ _ _ hx, hc, SameButDbvals]
           refine ⟨fun x => ?_, fun h e he => ?_⟩
-          · obtain ⟨a1, a2, a3⟩ := ih1 x
-            obtain ⟨b1, b2, b3⟩ := hset x
-            exact ⟨a1.trans b1, a2.trans b2, a3.trans b3⟩
+          · obtain ⟨a1, a2, a3, a4, a5⟩ := ih1 x
+            obtain ⟨b1, b2, b3, b4, b5⟩ := hset x
+            exact ⟨a1.trans b1, a2.trans b2, a3.trans b3, a4.trans b4, a5.trans b5⟩
           · rcases List.mem_cons.1 he with rfl | he
             · exact hrf
             · have := ih2 h e he
@@ -142,135 +157,97 @@ theorem overlay_not_mem (vals : Attr → Option Val) : ∀ (av : List (Attr × V
     have : a ≠ b := fun e => h (b, v) (List.mem_cons_self) e.symm
     exact upd_other _ _ _ _ this
 
-theorem overlay_mem (vals : Attr → Option Val) : ∀ (av : List (Attr × Val)) (a : Attr),
-    (∃ e, e ∈ av ∧ e.1 = a) → ∃ v, overlay vals av a = some v
-  | [], _, h => by obtain ⟨e, he, _⟩ := h; cases he
-  | (b, v) :: rest, a, h => by
-    simp only [overlay]
-    by_cases hr : ∃ e, e ∈ rest ∧ e.1 = a
-    · exact overlay_mem _ rest a hr
-    · have hb : b = a := by
-        obtain ⟨e, he, hea⟩ := h
-        rcases List.mem_cons.1 he with rfl | he
-        · exact hea
-        · exact absurd ⟨e, he, hea⟩ hr
-      subst hb
-      rw [overlay_not_mem _ rest b (fun e he hea => hr ⟨e, he, hea⟩)]
-      exact ⟨v, by simp⟩
-
 /-- [Entity._db_set_] -/
-theorem dbSetObj_frozen (g : Bool) (s : Sess) (cid : Nat) (avdict : List (Attr × Val)) :
-    Frozen s (dbSetObj g s cid avdict).1 := by
+theorem dbSetObj_frozen (cfg : Cfg) (g : Bool) (s : Sess) (cid : Nat) (avdict : List (Attr × Val)) :
+    Frozen cfg s (dbSetObj g s cid avdict).1 := by
   unfold dbSetObj
   simp only
   obtain ⟨h1, h2⟩ := loop2_spec g cid (avdict.filter (fun x => !((s.c cid).dbvals x.1 == some x.2))) s
   generalize hl : loop2 g cid s (avdict.filter (fun x => !((s.c cid).dbvals x.1 == some x.2))) = r at h1 h2
   obtain ⟨s1, oe⟩ := r
+  have same : ∀ c a, (s.c c).present = true → (s1.c c).present = true ∧
+      (prot cfg (s.c c) a = true → prot cfg (s1.c c) a = true ∧ (s1.c c).vals a = (s.c c).vals a) := by
+    intro c a hp
+    obtain ⟨a1, a2, a3, _, a5⟩ := h1 c
+    simp only at a1 a2 a3 a5
+    exact ⟨by rw [a3]; exact hp, fun hr => ⟨by simpa [prot, a2, a5] using hr, by rw [a1]⟩⟩
   cases oe with
-  | some e =>
-    intro c hp
-    obtain ⟨a1, a2, a3⟩ := h1 c
-    simp only at a1 a2 a3 ⊢
-    exact ⟨by rw [a3]; exact hp, fun a hr => ⟨by rw [a2]; exact hr, by rw [a1]⟩⟩
+  | some e => exact fun c a hp => same c a hp
   | none =>
     have hnr := h2 rfl
     simp only at h1 ⊢
-    intro c hp
-    obtain ⟨a1, a2, a3⟩ := h1 c
+    intro c a hp
+    obtain ⟨hp1, hk⟩ := same c a hp
     by_cases hc : c = cid
     · subst hc
       simp only [setC, upd_same]
-      refine ⟨by rw [a3]; exact hp, fun a hr => ⟨by rw [a2]; exact hr, ?_⟩⟩
-      rw [overlay_not_mem, a1]
+      refine ⟨hp1, fun hr => ?_⟩
+      obtain ⟨hr1, hv1⟩ := hk hr
+      refine ⟨by simpa [prot] using hr1, ?_⟩
+      rw [overlay_not_mem, hv1]
       intro e he hea
-      have := hnr e he
-      rw [hea, hr] at this
-      cases this
+      obtain ⟨hemem, hew⟩ := List.mem_filter.1 he
+      have hrb := hnr e hemem
+      -- protected: read bit (then `e` would have raised) or write mask (then `e` was filtered out)
+      obtain ⟨_, _, _, _, a5⟩ := h1 c
+      simp only [prot, Bool.and_eq_true, Bool.or_eq_true] at hr
+      rcases hr.2 with hrr | hww
+      · rw [hea, hrr] at hrb; cases hrb
+      · rw [hea, a5, hww] at hew; simp at hew
     · simp only [setC, upd_other _ _ _ _ hc]
-      exact ⟨by rw [a3]; exact hp, fun a hr => ⟨by rw [a2]; exact hr, by rw [a1]⟩⟩
+      exact ⟨hp1, hk⟩
 
-theorem setC_new_frozen (s : Sess) (cid : Nat) (h : (s.c cid).present = false) : Frozen s (setC s cid CObj.new) := by
-  intro c hp
+theorem setC_new_frozen (cfg : Cfg) (s : Sess) (cid : Nat) (h : (s.c cid).present = false) : Frozen cfg s (setC s cid CObj.new) := by
+  intro c a hp
   have hc : c ≠ cid := by intro e; subst e; rw [h] at hp; cases hp
   simp only [setC, upd_other _ _ _ _ hc]
-  exact ⟨hp, fun _ hr => ⟨hr, by trivial⟩⟩
+  exact ⟨hp, fun hr => ⟨hr, by trivial⟩⟩
 
 /-- [Entity._fetch_objects] -/
-theorem fetchRows_frozen (g : Bool) (cols : List Attr) : ∀ (rows : List Row) (s : Sess),
-    Frozen s (fetchRows g cols s rows).1
+theorem fetchRows_frozen (cfg : Cfg) (g : Bool) (cols : List Attr) : ∀ (rows : List Row) (s : Sess),
+    Frozen cfg s (fetchRows g cols s rows).1
   | [], s => Frozen.refl s
   | r :: rest, s => by
     unfold fetchRows
     simp only
-    have h0 : Frozen s (if (s.c r.1).present = true then s else setC s r.1 CObj.new) := by
+    have h0 : Frozen cfg s (if (s.c r.1).present = true then s else setC s r.1 CObj.new) := by
       by_cases hp : (s.c r.1).present = true
       · simp only [hp, if_true]; exact Frozen.refl s
       · simp only [hp]
-        exact setC_new_frozen s r.1 (by simpa using hp)
+        exact setC_new_frozen cfg s r.1 (by simpa using hp)
     generalize (if (s.c r.1).present = true then s else setC s r.1 CObj.new) = s0 at h0
-    have h1 := dbSetObj_frozen g s0 r.1 (cols.map (fun a => (a, rowVal r a)))
+    have h1 := dbSetObj_frozen cfg g s0 r.1 (cols.map (fun a => (a, rowVal r a)))
     generalize dbSetObj g s0 r.1 (cols.map (fun a => (a, rowVal r a))) = r1 at h1
     obtain ⟨s1, oe⟩ := r1
     cases oe with
     | some e => exact h0.trans h1
     | none =>
       simp only at h1 ⊢
-      have h2 := fetchRows_frozen g cols rest s1
+      have h2 := fetchRows_frozen cfg g cols rest s1
       generalize fetchRows g cols s1 rest = r2 at h2
       obtain ⟨s2, objs, e⟩ := r2
       exact (h0.trans h1).trans h2
 
-/-- the fetched instances are in the identity map afterwards -/
-theorem fetchRows_present (g : Bool) (cols : List Attr) : ∀ (rows : List Row) (s : Sess),
-    ∀ x, x ∈ (fetchRows g cols s rows).2.1 → ((fetchRows g cols s rows).1.c x).present = true
-  | [], s => by simp [fetchRows]
-  | r :: rest, s => by
-    unfold fetchRows
-    simp only
-    have h0 : ((if (s.c r.1).present = true then s else setC s r.1 CObj.new).c r.1).present = true := by
-      by_cases hp : (s.c r.1).present = true
-      · simp [hp]
-      · simp [hp, setC, CObj.new]
-    generalize (if (s.c r.1).present = true then s else setC s r.1 CObj.new) = s0 at h0
-    have h1 := dbSetObj_frozen g s0 r.1 (cols.map (fun a => (a, rowVal r a)))
-    generalize dbSetObj g s0 r.1 (cols.map (fun a => (a, rowVal r a))) = r1 at h1
-    obtain ⟨s1, oe⟩ := r1
-    cases oe with
-    | some e => intro x hx; simp at hx
-    | none =>
-      simp only at h1 ⊢
-      have hp1 : (s1.c r.1).present = true := (h1 r.1 h0).1
-      have h2 := fetchRows_frozen g cols rest s1
-      have h3 := fetchRows_present g cols rest s1
-      generalize fetchRows g cols s1 rest = r2 at h2 h3
-      obtain ⟨s2, objs, e⟩ := r2
-      intro x hx
-      simp only [List.mem_cons] at hx
-      rcases hx with rfl | hx
-      · exact (h2 _ hp1).1
-      · exact h3 x hx
+theorem prot_mono (cfg : Cfg) (o : CObj) (f : Attr → Bool) (a : Attr) (h : prot cfg o a = true) :
+    prot cfg { o with rbits := fun x => o.rbits x || f x } a = true := by
+  simp only [prot, Bool.and_eq_true, Bool.or_eq_true] at h ⊢
+  exact ⟨h.1, h.2.elim (fun x => Or.inl (Or.inl x)) Or.inr⟩
 
-theorem setRbits_frozen (cfg : Cfg) (used : List Attr) : ∀ (l : List Nat) (s : Sess), Frozen s (setRbits cfg s used l)
+theorem setRbits_frozen (cfg : Cfg) (used : List Attr) : ∀ (l : List Nat) (s : Sess), Frozen cfg s (setRbits cfg s used l)
   | [], s => Frozen.refl s
   | cid :: rest, s => by
     unfold setRbits
     simp only
     refine Frozen.trans ?_ (setRbits_frozen cfg used rest _)
-    intro c hp
-    by_cases hc : c = cid
-    · subst hc; simp only [setC, upd_same]; exact ⟨hp, fun a hr => ⟨by simp [hr], by trivial⟩⟩
-    · simp only [setC, upd_other _ _ _ _ hc]; exact ⟨hp, fun _ hr => ⟨hr, by trivial⟩⟩
+    exact Frozen.of_obj s cid _ rfl rfl (fun a h => prot_mono cfg _ _ a h)
 
-theorem markItems_frozen (cfg : Cfg) : ∀ (l : List Nat) (s : Sess), Frozen s (markItems cfg s l)
+theorem markItems_frozen (cfg : Cfg) : ∀ (l : List Nat) (s : Sess), Frozen cfg s (markItems cfg s l)
   | [], s => Frozen.refl s
   | cid :: rest, s => by
     unfold markItems
     simp only
     refine Frozen.trans ?_ (markItems_frozen cfg rest _)
-    intro c hp
-    by_cases hc : c = cid
-    · subst hc; simp only [setC, upd_same]; exact ⟨hp, fun a hr => ⟨by simp [hr], by trivial⟩⟩
-    · simp only [setC, upd_other _ _ _ _ hc]; exact ⟨hp, fun _ hr => ⟨hr, by trivial⟩⟩
+    exact Frozen.of_obj s cid _ rfl rfl (fun a h => prot_mono cfg _ _ a h)
 
 theorem markItems_kids (cfg : Cfg) : ∀ (l : List Nat) (s : Sess), (markItems cfg s l).kids = s.kids
   | [], _ => rfl
@@ -280,8 +257,12 @@ theorem setRbits_kids (cfg : Cfg) (used : List Attr) : ∀ (l : List Nat) (s : S
   | [], _ => rfl
   | cid :: rest, s => by unfold setRbits; simp only; rw [setRbits_kids cfg used rest]; rfl
 
+theorem fetchRows_frozen' {cfg : Cfg} {g : Bool} {cols : List Attr} {s : Sess} {rows : List Row} {s1 : Sess} {objs : List Nat}
+    {oe : Option Err} (h : fetchRows g cols s rows = (s1, objs, oe)) : Frozen cfg s s1 := by
+  have := fetchRows_frozen cfg g cols rows s; rw [h] at this; exact this
+
 theorem readLoad_spec (cfg : Cfg) (g : Bool) (s : Sess) (db : Db) (cid : Nat) (a : Attr) :
-    Frozen s (readLoad cfg g s db cid a).1 ∧
+    Frozen cfg s (readLoad cfg g s db cid a).1 ∧
     (∀ v, (s.c cid).vals a = some v → readLoad cfg g s db cid a = (s, none)) := by
   unfold readLoad
   simp only
@@ -296,26 +277,31 @@ theorem readLoad_spec (cfg : Cfg) (g : Bool) (s : Sess) (db : Db) (cid : Nat) (a
         · split
           · exact Frozen.refl s
           · rename_i hnr
-            intro c hpc
+            intro c x hpc
             by_cases hc : c = cid
             · subst hc
               simp only [setC, upd_same]
-              refine ⟨hpc, fun x hr => ⟨hr, ?_⟩⟩
-              have : x ≠ a := by intro e; subst e; exact hnr hr
-              exact upd_other _ _ _ _ this
-            · simp only [setC, upd_other _ _ _ _ hc]; exact ⟨hpc, fun _ hr => ⟨hr, by trivial⟩⟩
-    · have hf := fetchRows_frozen g (nonLazy cfg) (List.filter (fun r => r.1 == cid) db) s
-      generalize fetchRows g (nonLazy cfg) s (List.filter (fun r => r.1 == cid) db) = r2 at hf
-      obtain ⟨s2, objs, oe⟩ := r2
-      cases oe with
-      | some e => exact hf
-      | none => simp only; split <;> exact hf
+              refine ⟨hpc, fun hr => ⟨by simpa [prot] using hr, ?_⟩⟩
+              by_cases hw : (s.c c).wmask a = true
+              · simp [hw]
+              · simp only [hw, Bool.false_eq_true, if_false]
+                have : x ≠ a := by
+                  intro e; subst e
+                  simp only [prot, Bool.and_eq_true, Bool.or_eq_true] at hr
+                  rcases hr.2 with h1 | h1
+                  · exact hnr h1
+                  · exact hw h1
+                exact upd_other _ _ _ _ this
+            · simp only [setC, upd_other _ _ _ _ hc]; exact ⟨hpc, fun hr => ⟨hr, by trivial⟩⟩
+    · split
+      next s1 x e heq => exact fetchRows_frozen' heq
+      next s1 objs heq => split <;> exact fetchRows_frozen' heq
 
 theorem readFinish_spec (cfg : Cfg) (r : Sess × Option Err) (cid : Nat) (a : Attr) :
-    Frozen r.1 (readFinish cfg r cid a).1 ∧
+    Frozen cfg r.1 (readFinish cfg r cid a).1 ∧
     (∀ v, (readFinish cfg r cid a).2 = .ok v →
       ((readFinish cfg r cid a).1.c cid).vals a = some v ∧
-      (cfg.volatile a = false → ((readFinish cfg r cid a).1.c cid).rbits a = true)) ∧
+      (cfg.volatile a = false → prot cfg ((readFinish cfg r cid a).1.c cid) a = true)) ∧
     (∀ v, r.2 = none → (r.1.c cid).vals a = some v → (readFinish cfg r cid a).2 = .ok v) := by
   obtain ⟨s1, oe⟩ := r
   unfold readFinish
@@ -327,23 +313,21 @@ theorem readFinish_spec (cfg : Cfg) (r : Sess × Option Err) (cid : Nat) (a : At
     | none => exact ⟨Frozen.refl s1, fun v h => by simp at h, fun v _ h => by simp at h⟩
     | some v1 =>
       simp only
-      refine ⟨?_, fun v h => ?_, fun v _ hv => by simpa using hv⟩
-      · intro c hpc
-        by_cases hc : c = cid
-        · subst hc; simp only [setC, upd_same]; exact ⟨hpc, fun x hr => ⟨by simp [hr], by trivial⟩⟩
-        · simp only [setC, upd_other _ _ _ _ hc]; exact ⟨hpc, fun _ hr => ⟨hr, by trivial⟩⟩
-      · simp only [Except.ok.injEq] at h
-        subst h
-        simp only [setC, upd_same]
-        exact ⟨hv1, fun hvol => by simp [hvol]⟩
+      refine ⟨Frozen.of_obj s1 cid _ rfl rfl (fun x h => prot_mono cfg _ _ x h), fun v h => ?_, fun v _ hv => by simpa using hv⟩
+      simp only [Except.ok.injEq] at h
+      subst h
+      simp only [setC, upd_same]
+      refine ⟨hv1, fun hvol => ?_⟩
+      simp only [prot, hvol, Bool.not_false, Bool.true_and, beq_self_eq_true, Bool.and_true]
+      cases (s1.c cid).wmask a <;> simp
 
 /-- [Attribute.get] + read bit: what a successful read leaves behind -/
 theorem readCore_spec (cfg : Cfg) (g : Bool) (s : Sess) (db : Db) (cid : Nat) (a : Attr) :
-    Frozen s (readCore cfg g s db cid a).1 ∧
+    Frozen cfg s (readCore cfg g s db cid a).1 ∧
     (∀ v, (readCore cfg g s db cid a).2 = .ok v →
       ((readCore cfg g s db cid a).1.c cid).present = true ∧
       ((readCore cfg g s db cid a).1.c cid).vals a = some v ∧
-      (cfg.volatile a = false → ((readCore cfg g s db cid a).1.c cid).rbits a = true)) ∧
+      (cfg.volatile a = false → prot cfg ((readCore cfg g s db cid a).1.c cid) a = true)) ∧
     ((s.c cid).present = true → ∀ v, (s.c cid).vals a = some v → (readCore cfg g s db cid a).2 = .ok v) := by
   unfold readCore
   by_cases hp : (s.c cid).present = true
@@ -353,12 +337,48 @@ theorem readCore_spec (cfg : Cfg) (g : Bool) (s : Sess) (db : Db) (cid : Nat) (a
     have hfz := l1.trans f1
     refine ⟨hfz, fun v h => ?_, fun _ v hv => ?_⟩
     · obtain ⟨a1, a2⟩ := f2 v h
-      exact ⟨(hfz cid hp).1, a1, a2⟩
+      exact ⟨(hfz cid a hp).1, a1, a2⟩
     · have e := l2 v hv
       exact f3 v (by rw [e]) (by rw [e]; exact hv)
   · have hpf : (s.c cid).present = false := by simpa using hp
     simp only [hpf, Bool.not_false, if_true]
     exact ⟨Frozen.refl s, fun v h => by simp at h, fun h => by cases h⟩
+
+/-- [Entity._save_updated_] + [Entity._update_dbvals_]: the written attributes become read, nothing protected changes -/
+theorem saveUpdated_frozen (cfg : Cfg) (s : Sess) (db : Db) (cid : Nat) : Frozen cfg s (saveUpdated cfg s db cid).1 := by
+  unfold saveUpdated
+  simp only
+  split
+  · exact Frozen.refl s
+  · intro c a hpc
+    by_cases hc : c = cid
+    · subst hc
+      simp only [setC, upd_same]
+      refine ⟨hpc, fun hr => ?_⟩
+      simp only [prot, Bool.and_eq_true, Bool.or_eq_true, Bool.not_eq_true'] at hr ⊢
+      refine ⟨⟨hr.1, Or.inl (by simpa using hr.2)⟩, by simp [hr.1]⟩
+    · simp only [setC, upd_other _ _ _ _ hc]; exact ⟨hpc, fun hr => ⟨hr, by trivial⟩⟩
+
+theorem commitAll_frozen (cfg : Cfg) (db : Db) : ∀ (l : List Nat) (s : Sess), Frozen cfg s (commitAll cfg db s l).1
+  | [], s => Frozen.of_c_eq rfl
+  | c :: rest, s => by
+    unfold commitAll
+    have h1 := saveUpdated_frozen cfg s db c
+    split
+    next s1 e heq => rw [heq] at h1; exact h1
+    next s1 heq => rw [heq] at h1; exact h1.trans (commitAll_frozen cfg db rest s1)
+
+theorem saveUpdated_kids (cfg : Cfg) (s : Sess) (db : Db) (cid : Nat) : (saveUpdated cfg s db cid).1.kids = s.kids := by
+  unfold saveUpdated; simp only; split <;> rfl
+
+theorem commitAll_kids (cfg : Cfg) (db : Db) : ∀ (l : List Nat) (s : Sess), (commitAll cfg db s l).1.kids = s.kids
+  | [], s => rfl
+  | c :: rest, s => by
+    unfold commitAll
+    have h1 := saveUpdated_kids cfg s db c
+    split
+    next s1 e heq => rw [heq] at h1; exact h1
+    next s1 heq => rw [heq] at h1; rw [commitAll_kids cfg db rest s1]; exact h1
 
 /-! ### FullFrozen (needs the guarded `db_reverse_remove`) -/
 
@@ -493,15 +513,12 @@ theorem fetchRows_full (cols : List Attr) : ∀ (rows : List Row) (s : Sess), Fu
 
 /-! ### collection loading and whole operations -/
 
-theorem fetchRows_frozen' {g : Bool} {cols : List Attr} {s : Sess} {rows : List Row} {s1 : Sess} {objs : List Nat}
-    {oe : Option Err} (h : fetchRows g cols s rows = (s1, objs, oe)) : Frozen s s1 := by
-  have := fetchRows_frozen g cols rows s; rw [h] at this; exact this
 
 theorem fetchRows_full' {cols : List Attr} {s : Sess} {rows : List Row} {s1 : Sess} {objs : List Nat}
     {oe : Option Err} (h : fetchRows true cols s rows = (s1, objs, oe)) : FullFrozen s s1 := by
   have := fetchRows_full cols rows s; rw [h] at this; exact this
 
-theorem ensureKids_frozen (s : Sess) (p : Nat) : Frozen s (ensureKids s p) := by
+theorem ensureKids_frozen (cfg : Cfg) (s : Sess) (p : Nat) : Frozen cfg s (ensureKids s p) := by
   unfold ensureKids
   split
   · exact Frozen.of_c_eq rfl
@@ -535,19 +552,19 @@ theorem FullFrozen.setKids_after {s s1 : Sess} (p : Nat) (sd : SetData) (h : Ful
   obtain ⟨sd2, hk2, hf2, hi2⟩ := h q sdq hq hfq
   exact ⟨sd2, by simp only [setKids, upd_other _ _ _ _ hqp]; exact hk2, hf2, hi2⟩
 
-theorem loadColl_frozen (cfg : Cfg) (g : Bool) (s : Sess) (db : Db) (p : Nat) : Frozen s (loadColl cfg g s db p).1 := by
+theorem loadColl_frozen (cfg : Cfg) (g : Bool) (s : Sess) (db : Db) (p : Nat) : Frozen cfg s (loadColl cfg g s db p).1 := by
   unfold loadColl
   simp only
-  have h0 := ensureKids_frozen s p
+  have h0 := ensureKids_frozen cfg s p
   split
   · exact h0
   · split
     · exact h0
     · split
       next s1 x e heq =>
-        have hf := fetchRows_frozen' heq; exact h0.trans hf
+        have hf := fetchRows_frozen' (cfg := cfg) heq; exact h0.trans hf
       next s1 x heq =>
-        have hf := fetchRows_frozen' heq
+        have hf := fetchRows_frozen' (cfg := cfg) heq
         split
         · exact h0.trans hf
         · exact (h0.trans hf).trans (Frozen.of_c_eq rfl)
@@ -596,15 +613,38 @@ theorem loadColl_spec (cfg : Cfg) (g : Bool) (s : Sess) (db : Db) (p : Nat) :
         · intro h; simp at h
         · intro _; exact ⟨_, upd_same _ _ _, rfl⟩
 
-/-- EVERY reader operation, against ANY committed database -/
-theorem exec_frozen (cfg : Cfg) (g : Bool) (s : Sess) (db : Db) (op : Op) : Frozen s (exec cfg g s db op).1 := by
+/-- an assignment changes `_vals_` of the assigned attribute only -/
+theorem write_keeps (cfg : Cfg) (g : Bool) (s : Sess) (db : Db) (c0 : Nat) (a0 : Attr) (v : Val) (c : Nat) (a : Attr)
+    (hne : ¬ (c = c0 ∧ a = a0)) : KeepsAt cfg c a s (exec cfg g s db (.write c0 a0 v)).1 := by
+  simp only [exec]
+  split
+  · exact KeepsAt.refl cfg c a s
+  · intro hpc
+    by_cases hc : c = c0
+    · subst hc
+      have ha : a ≠ a0 := fun e => hne ⟨rfl, e⟩
+      simp only [setC, upd_same]
+      refine ⟨hpc, fun hr => ⟨?_, upd_other _ _ _ _ ha⟩⟩
+      simpa [prot, upd_other _ _ _ _ ha] using hr
+    · simp only [setC, upd_other _ _ _ _ hc]; exact ⟨hpc, fun hr => ⟨hr, by trivial⟩⟩
+
+/-- EVERY reader operation except an assignment, against ANY committed database -/
+theorem exec_frozen (cfg : Cfg) (g : Bool) (s : Sess) (db : Db) (op : Op) (hw : ∀ c a v, op ≠ .write c a v) :
+    Frozen cfg s (exec cfg g s db op).1 := by
   cases op with
+  | write c a v => exact absurd rfl (hw c a v)
+  | commit =>
+    simp only [exec]
+    have h := commitAll_frozen cfg db s.toSave s
+    split
+    next s1 e heq => rw [heq] at h; exact h
+    next s1 heq => rw [heq] at h; exact h
   | fetch ids cond cols =>
     simp only [exec]
     split
-    next s1 x e heq => have hf := fetchRows_frozen' heq; exact hf
+    next s1 x e heq => have hf := fetchRows_frozen' (cfg := cfg) heq; exact hf
     next s1 objs heq =>
-      have hf := fetchRows_frozen' heq
+      have hf := fetchRows_frozen' (cfg := cfg) heq
       exact hf.trans (setRbits_frozen cfg _ objs s1)
   | readAttr c a =>
     simp only [exec]
@@ -617,9 +657,9 @@ theorem exec_frozen (cfg : Cfg) (g : Bool) (s : Sess) (db : Db) (op : Op) : Froz
     split
     · exact Frozen.refl s
     · split
-      next s1 x e heq => have hf := fetchRows_frozen' heq; exact hf
+      next s1 x e heq => have hf := fetchRows_frozen' (cfg := cfg) heq; exact hf
       next s1 objs heq =>
-        have hf := fetchRows_frozen' heq
+        have hf := fetchRows_frozen' (cfg := cfg) heq
         split <;> exact hf
   | iter p =>
     simp only [exec]
@@ -644,8 +684,8 @@ theorem exec_frozen (cfg : Cfg) (g : Bool) (s : Sess) (db : Db) (op : Op) : Froz
     · exact Frozen.of_c_eq rfl
   | isEmpty p =>
     simp only [exec]
-    have h0 := ensureKids_frozen s p
-    have hsql : Frozen s
+    have h0 := ensureKids_frozen cfg s p
+    have hsql : Frozen cfg s
         (match fetchRows g (nonLazy cfg) (ensureKids s p) ((db.filter (fun r => rowVal r refAttr == (p : Int))).take 1) with
           | (s1, _, some e) => (s1, Res.err e)
           | (s1, _, none) =>
@@ -653,9 +693,9 @@ theorem exec_frozen (cfg : Cfg) (g : Bool) (s : Sess) (db : Db) (op : Op) : Froz
             | none => (s1, Res.err Err.other)
             | some sd1 => if (!sd1.items.isEmpty) = true then (s1, Res.bool false) else (setKids s1 p ⟨sd1.items, true, some 0⟩, Res.bool true)).1 := by
       split
-      next s1 x e heq => have hf := fetchRows_frozen' heq; exact h0.trans hf
+      next s1 x e heq => have hf := fetchRows_frozen' (cfg := cfg) heq; exact h0.trans hf
       next s1 x heq =>
-        have hf := fetchRows_frozen' heq
+        have hf := fetchRows_frozen' (cfg := cfg) heq
         split
         · exact h0.trans hf
         · split
@@ -712,6 +752,17 @@ theorem readCore_full (cfg : Cfg) (s : Sess) (db : Db) (cid : Nat) (a : Attr) :
 /-- EVERY reader operation of the current code (guarded `db_reverse_remove`), against ANY committed database -/
 theorem exec_full (cfg : Cfg) (s : Sess) (db : Db) (op : Op) : FullFrozen s (exec cfg true s db op).1 := by
   cases op with
+  | write c a v =>
+    simp only [exec]
+    split
+    · exact FullFrozen.refl s
+    · exact FullFrozen.of_kids_eq rfl
+  | commit =>
+    simp only [exec]
+    have h := commitAll_kids cfg db s.toSave s
+    split
+    next s1 e heq => rw [heq] at h; exact FullFrozen.of_kids_eq h
+    next s1 heq => rw [heq] at h; exact FullFrozen.of_kids_eq h
   | fetch ids cond cols =>
     simp only [exec]
     split
@@ -801,11 +852,23 @@ theorem exec_full (cfg : Cfg) (s : Sess) (db : Db) (op : Op) : FullFrozen s (exe
     next s1 e heq => rw [heq] at h; exact h
     next s1 v heq => rw [heq] at h; exact h
 
-theorem run_frozen (cfg : Cfg) (g : Bool) : ∀ (tr : List (Db × Op)) (s : Sess), Frozen s (runS cfg g s tr)
-  | [], s => Frozen.refl s
-  | (db, op) :: rest, s => by
-    have h1 := exec_frozen cfg g s db op
-    have h2 := run_frozen cfg g rest (exec cfg g s db op).1
+/-- EVERY reader operation keeps attribute `a` of instance `c`, unless it is an assignment to exactly that attribute -/
+theorem exec_keeps (cfg : Cfg) (g : Bool) (s : Sess) (db : Db) (op : Op) (c : Nat) (a : Attr)
+    (hw : ∀ v, op ≠ .write c a v) : KeepsAt cfg c a s (exec cfg g s db op).1 := by
+  by_cases h : ∃ c0 a0 v, op = .write c0 a0 v
+  · obtain ⟨c0, a0, v, rfl⟩ := h
+    exact write_keeps cfg g s db c0 a0 v c a (fun e => hw v (by rw [e.1, e.2]))
+  · exact exec_frozen cfg g s db op (fun c0 a0 v e => h ⟨c0, a0, v, e⟩) c a
+
+/-- the history contains no assignment to attribute `a` of instance `c` -/
+def NoWrite (c : Nat) (a : Attr) (tr : List (Db × Op)) : Prop := ∀ x, x ∈ tr → ∀ v, x.2 ≠ .write c a v
+
+theorem run_keeps (cfg : Cfg) (g : Bool) (c : Nat) (a : Attr) : ∀ (tr : List (Db × Op)) (s : Sess), NoWrite c a tr →
+    KeepsAt cfg c a s (runS cfg g s tr)
+  | [], s, _ => KeepsAt.refl cfg c a s
+  | (db, op) :: rest, s, hn => by
+    have h1 := exec_keeps cfg g s db op c a (hn (db, op) List.mem_cons_self)
+    have h2 := run_keeps cfg g c a rest (exec cfg g s db op).1 (fun x hx => hn x (List.mem_cons_of_mem _ hx))
     simp only [runS, run] at h2 ⊢
     exact h1.trans h2
 
